@@ -73,10 +73,12 @@ PROPS = {
  'C03': {'runs': bridge('C03'), 'monitor_props': ['C03'], 'rule': BRIDGE_RULE, 'assumptions': SYMBOLIC + ['bitcoin transaction parsing is btcd (trusted dependency): the harness passes the strictly parsed outputs to the model', 'hash160 and the taproot tweak are data supplied by the harness (computed with the real libraries)']},
  'C05': {'runs': bridge('C05'), 'monitor_props': ['C05'], 'rule': BRIDGE_RULE, 'assumptions': SYMBOLIC + ['withdrawal ids in execution-layer requests are fresh (assigned by the bridge contract counter)', 'fee-rate test modelled exactly (fee > price*len); equals the float64 test for values below 2^53'],
          'partial': ''},
- 'C06': {'runs': runs([{'family': 'bridge', 'n': 160, 'shards': 16, 'param': 'proj=C06,ops=45'}, {'family': 'locking', 'n': 160, 'shards': 16, 'param': 'proj=C15,blocks=14', 'tag': '1'}],
-                      [{'family': 'bridge', 'n': 4000, 'shards': 64, 'param': 'proj=C06,ops=70'}, {'family': 'locking', 'n': 3000, 'shards': 64, 'param': 'proj=C15,blocks=24', 'tag': '1'}]),
-         'monitor_props': ['C06'], 'rule': BRIDGE_RULE + ' ; ' + LOCKING_RULE,
-         'partial': 'the payload-level check (VerifyDequeue / unfinalised proposals consume nothing / restarts) is exercised at application level by C08/C09 checks'},
+ 'C06': {'runs': runs([{'family': 'bridge', 'n': 160, 'shards': 16, 'param': 'proj=C06,ops=45'}, {'family': 'locking', 'n': 160, 'shards': 16, 'param': 'proj=C15,blocks=14', 'tag': '1'},
+                       {'family': 'goatblock', 'bin': 'ah', 'n': 120, 'shards': 1, 'tag': '2', 'seed_off': 5}],
+                      [{'family': 'bridge', 'n': 4000, 'shards': 64, 'param': 'proj=C06,ops=70'}, {'family': 'locking', 'n': 3000, 'shards': 64, 'param': 'proj=C15,blocks=24', 'tag': '1'},
+                       {'family': 'goatblock', 'bin': 'ah', 'n': 1500, 'shards': 6, 'tag': '2', 'seed_off': 5}]),
+         'monitor_props': ['C06'], 'rule': BRIDGE_RULE + ' ; ' + LOCKING_RULE + ' ; application level: proposals whose leading system transactions are dropped, reordered, tampered, invented in front of or behind the due ones, announced too few / too many (goatblock family)',
+         'partial': 'the payload-level clause (VerifyDequeue) is decided by the goatblock family against the facts-level model; unfinalised proposals consuming nothing and restarts are exercised by the C08/C09 checks'},
  'C16': {'runs': bridge('C16', ops=60), 'monitor_props': ['C16'], 'rule': BRIDGE_RULE, 'assumptions': SYMBOLIC,
          'partial': ''},
  'C15': {'runs': locking('C15', blocks=18), 'monitor_props': ['C15'], 'rule': LOCKING_RULE + '; unlock / exit durations 10..90 s with block-time jumps over them',
